@@ -412,7 +412,8 @@ theorem C07_assignment_rendering_keeps_value (title enumId : String → String) 
   ⟨absL l, C07_composite_denotes v body l hl, evalR_renderAssignment title enumId name body l r hr⟩
 
 /-- the wrappers of a reference chain appear in chain order, the first reference outermost (`nester` pops from the
-    end): `v A ::= …` with `A ::= B`, `B ::= SEQUENCE …` is `A(B(B::new(…)))` -/
+    end): `v A ::= 5` with `A ::= B`, `B ::= C`, `C ::= INTEGER` is `A(B(C(5)))` (a struct value takes the last name
+    for its constructor instead: `C07_old_nested_struct_counterexample`) -/
 theorem C07_wrappers_in_chain_order (title : String → String) (a b : String) (s : RExpr) :
     nest title [a, b] s = .wrap (title a) (.wrap (title b) s) := rfl
 
@@ -437,15 +438,26 @@ theorem C07_struct_inside_list_refused (title enumId : String → String) (e : V
   simp [renderElems, render]
 
 /-- non-vacuity: `v A ::= { y FALSE, z { p 2 } }` with `A ::= Sq`, `Sq ::= SEQUENCE { x INTEGER DEFAULT 7, y BOOLEAN, z Inner }`,
-    `Inner ::= SEQUENCE { p INTEGER }` links (with the body of `A`) and renders as `A(Sq(Sq::new(7, false, Inner(Inner::new(2)))))` -/
+    `Inner ::= SEQUENCE { p INTEGER }` links (with the body of `A`) and renders as `A(Sq::new(7, false, Inner::new(2)))` -/
 example :
     let inner : VTy := .named "Inner" (.seq [.mk "p" .leaf none])
     let body : VTy := .named "Sq" (.seq [.mk "x" .leaf (some (.atom (.int 7))), .mk "y" .leaf none, .mk "z" inner none])
     (link body (.braces [.mk (some "y") (.atom (.bool false)), .mk (some "z") (.braces [.mk (some "p") (.atom (.int 2))])])).bind
         (renderAssignment id id (some "A") body)
-      = some (.wrap "A" (.wrap "Sq" (.new "Sq" [.lit (.int 7), .lit (.bool false), .wrap "Inner" (.new "Inner" [.lit (.int 2)])]))) := by
+      = some (.wrap "A" (.new "Sq" [.lit (.int 7), .lit (.bool false), .new "Inner" [.lit (.int 2)]])) := by
   simp [link, strip, linkGiven, findMember, assemble, findGiven, wrap, Option.orElse, render, renderFields, core, tyName,
     renderAssignment, wrapName, nest]
+
+/-- the arm as it was before fix `9a8438f`: the struct's own name was put around the value like a newtype, and the
+    constructor was named after the type name handed in — `f Alias DEFAULT { p 1 }` with `Alias ::= Base`,
+    `Base ::= SEQUENCE { p INTEGER }` gave `Alias(Base(Alias::new(1)))`, which names a constructor that does not exist -/
+theorem C07_old_nested_struct_counterexample :
+    (nest id ["Alias", "Base"] (.new "Alias" [.lit (.int 1)])) = .wrap "Alias" (.wrap "Base" (.new "Alias" [.lit (.int 1)])) ∧
+    render id id (.named "Alias" (.named "Base" (.seq [.mk "p" .leaf none]))) (some "Alias")
+        (.nested ["Alias", "Base"] (.struct [.mk "p" (.atom (.int 1))]))
+      = some (.wrap "Alias" (.new "Base" [.lit (.int 1)])) := by
+  refine ⟨rfl, ?_⟩
+  simp [render, renderFields, core, strip, tyName, nest]
 
 end Rendering
 
